@@ -266,6 +266,11 @@ OutFlags(x) == IF x.f = "impute" /\ x.ind
                     IN  [f \in DOMAIN js |-> <<js[f], FlagCol(x.cols[js[f]])>>]
                ELSE <<>>
 Expected(x) == Contexts(x.shape, OutCols(x), OutFlags(x))
+(* History independence.  A filter OBJECT is applied to many sequences: Environments.filter (core.py) hands one Scale /     *)
+(* Impute object to every environment, and every environment is read once per learner.  The property quantifies over "all  *)
+(* interaction sequences": what an object returns for the k-th sequence it is given is the expectation for that sequence    *)
+(* alone, whatever it filtered before.  xs: the cases (same filter and parameters) whose data sets the object sees in order *)
+AppliedInTurn(xs) == [k \in DOMAIN xs |-> Expected(xs[k])]
 Given(x)    == Contexts(x.shape, x.cols, <<>>)
 
 Emit == go => PrintT(ToJson([f |-> c.f, shape |-> c.shape, using |-> c.using,
